@@ -53,6 +53,9 @@ class Gensym:
         ident = self._copy_id(ident)
         while ident in self._idents:
             ident.count = self._counter
+            # `NamedId` caches its hash: drop the hash of the old count, or
+            # the membership test above would miss a reserved `base<count>`
+            ident._hash = None
             self._counter += 1
 
         self._idents.add(ident)
